@@ -40,6 +40,9 @@ static const KnownDefect KNOWN_DEFECTS[] = {
 static const char* FMT_WITNESS = "ISO-8859-15/1.0/CharEscapes/UnRep_CharRef U+10000 0";
 static bool g_known = false;
 static bool g_witness = true;   // --witness 0: count known defects only (their witnesses are reported by another run of the same tier)
+// Only defects that are still open may absorb a discrepancy.  The entries of repaired defects stay in the table for their witnesses (a witness
+// that fails again is reported), but a discrepancy on a tree that merely *could* have shown a repaired defect is an ordinary violation.
+static bool kd_open(const std::string& id) { return id == "namespace-fixup-prefix-conflict"; }
 static const KnownDefect* kd_find(const std::string& id) { for (auto& k : KNOWN_DEFECTS) if (id == k.id) return &k; return nullptr; }
 static bool kd_kind(const KnownDefect* k, const std::string& kind) {
     std::string ks = std::string(" ") + k->kinds + " ";
@@ -536,7 +539,7 @@ static void check_tree(DOMDocument* doc, const TreeOpts& to, Ctx& c) {
             if (g_known)
                 for (const std::string& id : ex.kd) {
                     const KnownDefect* k = kd_find(id);
-                    if (!k || !kd_kind(k, kind)) continue;
+                    if (!k || !kd_kind(k, kind) || !kd_open(id)) continue;
                     if (kind == "illformed-content-emitted-silently") {   // attribute only when the reference reason is this defect's
                         bool mine = (id == "comment-double-hyphen-emitted" && ex.why == "comment-double-hyphen") || (id == "pi-end-marker-emitted" && ex.why == "pi-end-marker") ||
                                     (id == "cdata-illegal-char-emitted-when-splitting" && ex.why == "cdata-illegal-char");
@@ -1059,7 +1062,7 @@ static void run_fmt(uint64_t idx, Ctx& c) {
             if (gi != gotText.size()) same = false;
             if (!same) {
                 bool icuSupp = f.enc == 7 && f.unrep == XMLFormatter::UnRep_CharRef && has_supp(in);
-                if (g_known && icuSupp) {
+                if (g_known && icuSupp && kd_open("icu-transcoder-lone-surrogate-representable")) {
                     if (label + " " + cpb + " " + std::to_string(context) == FMT_WITNESS) c.violation("defect:icu-transcoder-lone-surrogate-representable", detail(show(expText), show(gotText)));
                     else c.count("known_defect:icu-transcoder-lone-surrogate-representable");
                     continue;
@@ -1093,7 +1096,7 @@ static void run_params(uint64_t idx, Ctx& c) {
     c.count("parameters_probed");
     if (can && exc.empty()) { c.count("parameter_accepted"); return; }
     std::string det = "\"parameter\":" + jstr(pc.name) + ",\"value\":" + (pc.value ? "true" : "false") + ",\"canSetParameter\":" + (can ? "true" : "false") + ",\"setParameter\":" + jstr(exc);
-    if (g_known && std::string(pc.name) == "discard-default-content") {
+    if (g_known && std::string(pc.name) == "discard-default-content" && kd_open("discard-default-content-name-misspelled")) {
         if (pc.value) c.violation("defect:discard-default-content-name-misspelled", det); else c.count("known_defect:discard-default-content-name-misspelled");
         return;
     }
